@@ -220,6 +220,50 @@ def interleaved(sched: List[bool]) -> bool:
         return got == want
 
 
+def handover(sched: List[bool]) -> bool:
+    """
+    pre: len(sched) == P["K"]
+    post: _
+    """
+    # state machine -> application hand-over in isolation: n parsed application messages wait in the association's inbound
+    # queue; the state-machine thread forwards them (notify_postprocess_message), the consumer thread calls get_message() n
+    # times; preemption point before EVERY statement of get_message / get_postprocess_recv_message / notify_postprocess_message
+    from vf import cosched as CS
+    from vf.conode import CoNode
+    from crosshair.core import IgnoreAttempt
+    from bromelia.base import DiameterMessage
+    with untraced():
+        n = P["n"]
+        node = CoNode(P["role"], lines=["get_message", "get_postprocess_recv_message", "notify_postprocess_message"])
+        wires = [_app_req(i, 0x40000 + i) for i in range(n)]
+        for w in wires:
+            node.assoc._recv_messages.put(DiameterMessage.load(w)[0])
+        got = []
+
+        def consumer():
+            for _ in range(n):
+                m = yield from node.d.get_message()
+                got.append(m.dump() if m is not None else None)
+        s = CS.Sched(sched, max_preempt=P.get("maxp"))
+        s.spawn("A", consumer())
+        s.spawn("S", node.machine(), daemon=True)
+        try:
+            s.run()
+        except CS.Prune:
+            raise IgnoreAttempt("schedule bound")
+        except CS.Deadlock as d:
+            reached()
+            if REPLAY: note(deadlock=d.who, delivered=len(got), expected=n, schedule="".join(x[0] for x in s.trace)[-200:])
+            return False
+        except (LIB + (Exception,)) as e:
+            reached()
+            if REPLAY: note(raised=f"{type(e).__name__}: {e}", schedule="".join(x[0] for x in s.trace)[-200:])
+            return False
+        reached()
+        if REPLAY: note(delivered=len(got), expected=n, schedule="".join(x[0] for x in s.trace)[-200:])
+        return got == wires
+
+
 def queries(tier, seed):
     t = 150 if tier == "quick" else 1800
     qs = [Q("native/bytewise", "bytewise", engine="py", cto=120, what="4 messages, one byte per read, both roles")]
@@ -240,7 +284,12 @@ def queries(tier, seed):
                 {"role": "CLIENT", "kinds": ["req", "req"], "cuts": [L1], "K": 64, "maxp": 1, "network": True, "threads": "RW", "lines": LN}, cto=max(t, 400), pto=max(t, 400), split=3,
                 what="reader + receive worker + a network thread delivering the 2nd segment at an arbitrary moment; preemption point before EVERY statement of "
                      "read() and recv_message_from_queue(): every schedule with <= 1 preemption; oracle: the association's inbound queue"))
+    qs.append(Q("handover/lines/n2/P2", "handover", {"role": "CLIENT", "n": 2, "K": 64, "maxp": 2}, cto=t, pto=t, split=2,
+                what="state machine -> consumer hand-over of 2 parsed messages, preemption point before every statement of get_message / "
+                     "get_postprocess_recv_message / notify_postprocess_message: every schedule with <= 2 preemptions"))
     if tier != "quick":
+        qs.append(Q("handover/lines/n3/P3", "handover", {"role": "SERVER", "n": 3, "K": 96, "maxp": 3}, cto=t, pto=t, split=3,
+                    what="the same with 3 messages and <= 3 preemptions"))
         qs.append(Q("interleaved/arrival/reader-worker/lines/P2", "interleaved",
                     {"role": "CLIENT", "kinds": ["req", "dwr"], "cuts": [40], "K": 64, "maxp": 2, "network": True, "threads": "RW", "lines": LN}, cto=t, pto=t,
                     what="same with a cut inside the first message and <= 2 preemptions (~54 000 schedules)"))
@@ -252,7 +301,8 @@ def queries(tier, seed):
     return qs
 
 
-BOUNDS = ["(i) streams of 2-3 messages with 1 arbitrary cut (quick) / 2 cuts on two-message streams and 3 cuts on one message (thorough): every segmentation into that "
+BOUNDS = ["(iii) hand-over state machine -> consumer in isolation: 2 (quick) / 3 parsed messages, statement-level preemption in get_message / get_postprocess_recv_message / "
+          "notify_postprocess_message, <= 2 / 3 preemptions", "(i) streams of 2-3 messages with 1 arbitrary cut (quick) / 2 cuts on two-message streams and 3 cuts on one message (thorough): every segmentation into that "
           "many reads; regular chunkings of 1..40 bytes per read over a 4-message stream as a native run; identifiers symbolic with one cut in the first 40 bytes",
           "(i) schedule: reader, worker, state machine and consumer run to quiescence after each read (the interleaving dimension is (ii))",
           "(ii) 2 messages in 2-3 reads; threads reader/worker/state machine/consumer at synchronisation-operation granularity with <= 1 (quick) / 2 preemptions; "
